@@ -1030,11 +1030,19 @@ impl<'l> CelCompiler<'l> {
                         // Arguments are evaluated backwards so they get popped off the stack in order
                         for (a, ast) in args.into_iter().rev() {
                             args_ast.push(ast);
-                            args_node =
-                                args_node.append_result(CompiledProg::with_code_points(vec![
-                                    ByteCode::Push(a.into_unresolved_bytecode().resolve().into())
-                                        .into(),
-                                ]))
+                            // the argument becomes a nested code block; its identifiers
+                            // are still parameters of the whole program
+                            let (a_node, a_details) = a.into_parts();
+                            args_node = args_node.append_result(CompiledProg::new(
+                                NodeValue::Bytecode(
+                                    [PreResolvedCodePoint::Bytecode(ByteCode::Push(
+                                        a_node.into_bytecode().resolve().into(),
+                                    ))]
+                                    .into_iter()
+                                    .collect(),
+                                ),
+                                a_details,
+                            ))
                         }
 
                         member_prime_node = args_node
@@ -1322,6 +1330,7 @@ impl<'l> CelCompiler<'l> {
                 loc,
             }) => {
                 let mut bytecode = Vec::<PreResolvedCodePoint>::new();
+                let mut details = crate::program::ProgramDetails::new();
 
                 for segment in segments.iter() {
                     match segment {
@@ -1334,10 +1343,12 @@ impl<'l> CelCompiler<'l> {
                             comp.nesting = self.nesting;
 
                             let (e, _) = comp.parse_expression()?;
+                            let (e_node, e_details) = e.into_parts();
+                            details.union_from(e_details);
 
                             bytecode.push(
                                 ByteCode::Push(CelValue::ByteCode(
-                                    e.into_unresolved_bytecode().resolve(),
+                                    e_node.into_bytecode().resolve(),
                                 ))
                                 .into(),
                             );
@@ -1351,7 +1362,10 @@ impl<'l> CelCompiler<'l> {
                 bytecode.push(ByteCode::FmtString(segments.len() as u32).into());
 
                 Ok((
-                    CompiledProg::with_code_points(bytecode),
+                    CompiledProg::new(
+                        NodeValue::Bytecode(bytecode.into_iter().collect()),
+                        details,
+                    ),
                     AstNode::new(
                         Primary::Literal(LiteralsAndKeywords::FStringList(segments.clone())),
                         loc,
@@ -1488,18 +1502,22 @@ impl<'l> CelCompiler<'l> {
     fn check_for_const(&self, member_prime_node: CompiledProg) -> CompiledProg {
         let mut i = Interpreter::empty();
         i.add_bindings(&self.bindings);
-        let bc = member_prime_node.into_unresolved_bytecode().resolve();
+        // whatever the call turns into, it still mentions the same identifiers
+        let (node, details) = member_prime_node.into_parts();
+        let bc = node.into_bytecode().resolve();
 
         if Self::reads_clock(&bc) {
             // now() and timestamp() must be evaluated at every execution
-            return CompiledProg::with_bytecode(bc);
+            return CompiledProg::new(NodeValue::Bytecode(bc.into()), details);
         }
 
         let r = i.run_raw(&bc, true);
 
         match r {
-            Ok(v) if !Self::holds_error(&v) => CompiledProg::with_const(v),
-            _ => CompiledProg::with_bytecode(bc),
+            Ok(v) if !Self::holds_error(&v) => {
+                CompiledProg::new(NodeValue::ConstExpr(v), details)
+            }
+            _ => CompiledProg::new(NodeValue::Bytecode(bc.into()), details),
         }
     }
 }
